@@ -195,6 +195,34 @@ func ruleC09(c *Ctx) []*report.Result {
 						return
 					}
 					w := writes[0]
+					// the decimal (or other base) rendering of an integer by strconv is
+					// the %d (%x, %o, %b) rendering: the payload is the number, the
+					// base stands for the verb, and the function must be the one of
+					// the parameter's signedness
+					if call, ok := fl.deep(w.payload).(*ssa.Call); ok && w.payload != nil {
+						if g := call.Common().StaticCallee(); g != nil && (g.String() == "strconv.FormatInt" || g.String() == "strconv.FormatUint" || g.String() == "strconv.Itoa") {
+							base := int64(10)
+							if g.Name() != "Itoa" {
+								if k, ok := intConst(call.Common().Args[1]); ok {
+									base = k
+								} else {
+									base = -1
+								}
+							}
+							src := fl.deep(call.Common().Args[0])
+							okSign := false
+							if bt, ok := src.Type().Underlying().(*types.Basic); ok && bt.Info()&types.IsInteger != 0 {
+								unsigned := bt.Info()&types.IsUnsigned != 0
+								okSign = unsigned == (g.Name() == "FormatUint")
+							}
+							verb, okBase := map[int64]string{10: "%d", 16: "%x", 8: "%o", 2: "%b"}[base]
+							r.Check(okSign && okBase, construct+" / strconv rendering of its signedness", pos, fmt.Sprintf("%s with base %d does not render a %s as the printer's integer formatter does", g.String(), base, src.Type()))
+							if okSign && okBase {
+								w.payload = src
+								w.consts = append(w.consts, verb)
+							}
+						}
+					}
 					r.Check(w.payload != nil && fl.deep(w.payload) == param, construct+" / payload is the parameter", pos, "the value written is not the method's parameter")
 					if impl.pkg == "builder" {
 						// the mode in force at the write, for every entry mode of the
